@@ -144,6 +144,7 @@ class C06(Prop):
             'driver': st.sampled_from(['run', 'run', 'tick']),
             'roots': st.lists(e, min_size=1, max_size=3),
             'copies': st.sampled_from([[0], [0], [0, 0], [0, 1], [0, 2], [0, 3]]),
+            'chan': st.booleans(),
         }).map(_number)
 
     # ------------------------------------------------------------------
@@ -164,6 +165,18 @@ class C06(Prop):
             # results carry the instance they belong to, so that a mix-up between concurrent copies is visible
             return '%s#%d' % (v, inst) if isinstance(v, str) and v.startswith('v') else v
 
+        two = bool(spec.get('chan'))
+
+        def CH(eid):
+            """Channel an event is addressed to: in two-channel mode even ids are handled by the root (channel 'a'), odd ids by
+            a child component (channel 'b'); otherwise everything lives on '*'."""
+            return () if not two else (('b',) if eid % 2 else ('a',))
+
+        HC = ('a',) if two else ()
+
+        class Sub(BaseComponent):
+            pass
+
         class App(BaseComponent):
             @H('exception', channel='*')
             def _x(self, etype, evalue, tb, handler=None, fevent=None):
@@ -177,7 +190,7 @@ class C06(Prop):
             @H('watch')
             def _watch(self, ce, timeout):
                 try:
-                    yield self.wait(ce, timeout=timeout)
+                    yield self.wait(ce, *CH(int(ce.name[1:])), timeout=timeout)
                     log.append(('watch-resumed',))
                 except CTimeout:
                     log.append(('watch-timeout',))
@@ -188,9 +201,11 @@ class C06(Prop):
                     return   # nobody ever fires the awaited event
                 for _ in range(delay):
                     yield None
-                self.fire(ce)
+                self.fire(ce, *CH(int(ce.name[1:])))
 
-        app = App()
+        app = App(channel='a' if two else '*')
+        sub = Sub(channel='b' if two else '*').register(app)
+        driver.settle(app, 10)
         evobj = {}
         watched = [0]
 
@@ -215,7 +230,7 @@ class C06(Prop):
                         yield tag(a[1], inst)
                     elif kind == 'fire':
                         ce = evobj[G(a[1]['id'], inst)] = make(a[1], inst)
-                        self.fire(ce)
+                        self.fire(ce, *CH(a[1]['id']))
                     else:
                         cs, timeout, catch = a[1], a[2], a[3]
                         site = G(cs['id'], inst)
@@ -225,20 +240,20 @@ class C06(Prop):
                             ce = evobj[site] = make(cs, inst)
                             if kind in ('call', 'firewait') and len(a) > 4 and a[4] >= 0:
                                 # a second handler waits for the SAME event object, with its own (short) time-out
-                                self.fire(watch(ce, a[4]))
+                                self.fire(watch(ce, a[4]), *HC)
                                 watched[0] += 1
                                 yield None      # one step, so that the second waiter is installed before ce is dispatched
                             if kind == 'call':
-                                r = yield self.call(ce, **kw)
+                                r = yield self.call(ce, *CH(cs['id']), **kw)
                             elif kind == 'firewait':
-                                self.fire(ce)
+                                self.fire(ce, *CH(cs['id']))
                                 r = yield self.wait(ce, **kw)
                             elif kind == 'latewait':
-                                self.fire(helper(ce, a[4]))
-                                r = yield self.wait(ce.name if a[5] else ce, **kw)
+                                self.fire(helper(ce, a[4]), *HC)
+                                r = yield self.wait(ce.name if a[5] else ce, *CH(cs['id']), **kw)
                             else:
-                                self.fire(ce)
-                                r = yield self.wait(ce.name, **kw)
+                                self.fire(ce, *CH(cs['id']))
+                                r = yield self.wait(ce.name, *CH(cs['id']), **kw)
                             log.append(('resumed', site, it[0], snap_value(r)))
                         except CTimeout:
                             log.append(('timeout', site, it[0]))
@@ -257,7 +272,7 @@ class C06(Prop):
                 eid = G(es['id'], inst)
                 for a in script['actions']:
                     ce = evobj[G(a[1]['id'], inst)] = make(a[1], inst)
-                    self.fire(ce)
+                    self.fire(ce, *CH(a[1]['id']))
                 if script['end'][0] in ('ret', 'stop'):
                     if script['end'][0] == 'stop':
                         event.stop()    # lower-priority handlers of this event are skipped
@@ -285,11 +300,13 @@ class C06(Prop):
 
         for eid, es in especs.items():
             for slot, script in enumerate(es['handlers']):
-                app.addHandler(mk(es, slot, script))
+                (sub if two and eid % 2 else app).addHandler(mk(es, slot, script))
             app.addHandler(mk_succ(eid))
 
         def snapshot():
-            return ({k: sorted(h.__name__ for h in v) for k, v in app._handlers.items()}, len(app._tasks), len(app._globals))
+            hs = {k: sorted(h.__name__ for h in v) for k, v in app._handlers.items()}
+            hs.update({'sub:' + k: sorted(h.__name__ for h in v) for k, v in sub._handlers.items()})
+            return (hs, len(app._tasks), len(app._globals) + len(sub._globals))
 
         exhausted = False
         escaped = None
@@ -310,9 +327,9 @@ class C06(Prop):
                     for es in spec['roots']:
                         ce = evobj[G(es['id'], inst)] = make(es, inst)
                         if delay == 0:
-                            app.fire(ce)
+                            app.fire(ce, *CH(es["id"]))
                         else:
-                            app.fire(helper(ce, delay))
+                            app.fire(helper(ce, delay), *HC)
                 if spec['driver'] == 'tick':
                     exhausted = driver.settle(app, 600) < 0
                 else:
@@ -453,6 +470,8 @@ class C06(Prop):
             classes.append('depth>=2')
         if len(copies) > 1:
             classes.append('two-copies-in-flight')
+        if spec.get('chan'):
+            classes.append('callers-and-callees-on-different-channels')
         if any(l[0] == 'watched' for l in log):
             classes.append('second-waiter-on-same-event')
         if any(l[0] == 'watch-timeout' for l in log):
